@@ -1291,7 +1291,91 @@ fn check_rule_types(lines: &[&str], format: FilterFormat, bat: &Battery, l: &mut
 // ---------------------------------------------------------------------------------------------
 // replay and driver
 
+// ---------------------------------------------------------------------------------------------
+// (g) one FilterSet fed by several add calls in different formats
+
+/// Blocking network lines, each with the format it is loaded in. Several texts occur in both
+/// formats (a bare host name is a substring pattern in the standard format and `||host^` in the
+/// hosts format); several lines repeat.
+const MIXED: [(&str, bool); 10] = [
+    ("example.com", false),
+    ("example.com", true),
+    ("ads.example.com", false),
+    ("ads.example.com", true),
+    ("0.0.0.0 tracker.co.uk", true),
+    ("||tracker.co.uk^", false),
+    ("/banner", false),
+    ("cdn.net", true),
+    ("cdn.net", false),
+    ("||cdn.net^$script", false),
+];
+
+fn mixed_requests() -> Vec<Request> {
+    let mut v = vec![];
+    for h in ["example.com", "ads.example.com", "tracker.co.uk", "cdn.net", "other.org"] {
+        for (path, ty) in [("/", "document"), ("/banner.js", "script"), ("/x.png", "image")] {
+            v.push(Request::new(&format!("https://{}{}", h, path), "https://page.test/", ty).unwrap());
+        }
+        v.push(Request::new(&format!("https://page.test/r?u={}", h), "https://page.test/", "script").unwrap());
+    }
+    v
+}
+
+/// The lines are loaded one add call each into ONE FilterSet; since all of them are plain blocking
+/// rules, a request is blocked exactly if the single-line engine of at least one line blocks it.
+fn check_mixed(seq: &[usize], reqs: &[Request], l: &mut Local) {
+    let case = json!({"part": "mixed", "seq": seq});
+    let size = seq.len() as u64;
+    let fmt = |hosts: bool| if hosts { FilterFormat::Hosts } else { FilterFormat::Standard };
+    let built = catch(|| {
+        let mut fs = FilterSet::new(true);
+        for &k in seq {
+            fs.add_filter_list(MIXED[k].0, opts(fmt(MIXED[k].1), RuleTypes::All, 0));
+        }
+        let singles: Vec<Engine> = seq
+            .iter()
+            .map(|&k| {
+                let mut one = FilterSet::new(true);
+                one.add_filter_list(MIXED[k].0, opts(fmt(MIXED[k].1), RuleTypes::All, 0));
+                build_engine(one, false)
+            })
+            .collect();
+        (build_engine(fs, seq.len() % 2 == 0), singles)
+    });
+    let (e, singles) = match built {
+        Ok(x) => x,
+        Err(loc) => return panic_mismatch(l, &loc, "loading lines of two formats into one FilterSet", case, size),
+    };
+    l.states += 1 + singles.len() as u64;
+    l.evaluations += 1;
+    for r in reqs {
+        l.transitions += 1 + singles.len() as u64;
+        l.compared += 1;
+        let got = e.check_network_request(r).matched;
+        let exp = singles.iter().any(|s| s.check_network_request(r).matched);
+        if exp {
+            l.nontrivial += 1;
+        }
+        if got != exp {
+            l.hist("mixed:DIFFERS");
+            let lines: Vec<String> = seq.iter().map(|&k| format!("{:?} as {}", MIXED[k].0, if MIXED[k].1 { "hosts" } else { "standard" })).collect();
+            l.mismatch(Mismatch {
+                sig: format!("c11.mixed-formats.{}", if exp { "line-lost" } else { "spurious-block" }),
+                what: format!("lines [{}] loaded one call each into one FilterSet: {} blocked = {}, but the single-line engines say {}", lines.join(", "), r.url, got, exp),
+                case: case.clone(),
+                size,
+            });
+            return;
+        }
+    }
+    l.hist("mixed:consistent");
+}
+
 fn replay(case: &Value, l: &mut Local) {
+    if case["part"].as_str() == Some("mixed") {
+        let seq: Vec<usize> = case["seq"].as_array().map(|a| a.iter().filter_map(|v| v.as_u64().map(|x| x as usize)).collect()).unwrap_or_default();
+        return check_mixed(&seq, &mixed_requests(), l);
+    }
     let bat = battery();
     let part = case["part"].as_str().unwrap_or("string");
     let lines_owned: Vec<String> = case["lines"]
@@ -1437,9 +1521,23 @@ fn check(ctx: &Ctx) -> i32 {
         check_rule_types(&lines, FilterFormat::Hosts, &bat, l);
     });
 
+    // (g) mixed formats in one FilterSet
+    let mreqs = mixed_requests();
+    let n_mixed = count_strings_upto(MIXED.len() as u64, 3);
+    ctx.bound("g_mixed_format_lines", json!(MIXED.iter().map(|(t, h)| format!("{} [{}]", t, if *h { "hosts" } else { "standard" })).collect::<Vec<_>>()));
+    ctx.bound("g_lists", n_mixed);
+    ctx.par_range("g-mixed-formats", n_mixed, 16, |i, l| {
+        let mut seq = vec![];
+        nth_seq(i, MIXED.len() as u64, &mut seq);
+        if seq.is_empty() {
+            return;
+        }
+        check_mixed(&seq, &mreqs, l);
+    });
+
     ctx.finish(
         "model_checking",
-        "(a) every string of <= n symbols over the 22-symbol structural alphabet and (b) every single edit (delete / insert / substitute, 33 symbols, every character position; thorough: also every two-symbol insertion) of 140+ frozen real rule spellings, each through parse_filter (2 formats x 3 rule-type options x 2 permission masks), read_list_metadata, CosmeticFilter::parse, NetworkFilter::parse, parse_hosts_style and, when accepted, FilterSet -> Engine -> battery -> serialize: no panic, and per line NetworkOnly/CosmeticOnly keep exactly the rules of their kind; (c) headers with a 1/2/3/4-byte character at every offset around byte 1024; (d) all lists of <= k lines over 13 good + 13 junk lines (and hosts files over 6 + 7), LF and CRLF, optimised or not: engine(list) and engine(list minus rejected lines) serialise to the same bytes and answer the battery identically; (e) every spelling of every host entry vs `||host^`: same mask / hostname / pattern and same verdict on every request of the host universe; (f) all lists of <= k good rules under the three rule-type options. Non-trivial: (a,b) some parser accepts the text; (c) a title is extracted; (d) some line is rejected, some kept and the battery sees an effect; (e) the entry blocks at least one request; (f) the list has both network and cosmetic effects. states = engines built, transitions = queries executed",
+        "(a) every string of <= n symbols over the 22-symbol structural alphabet and (b) every single edit (delete / insert / substitute, 33 symbols, every character position; thorough: also every two-symbol insertion) of 140+ frozen real rule spellings, each through parse_filter (2 formats x 3 rule-type options x 2 permission masks), read_list_metadata, CosmeticFilter::parse, NetworkFilter::parse, parse_hosts_style and, when accepted, FilterSet -> Engine -> battery -> serialize: no panic, and per line NetworkOnly/CosmeticOnly keep exactly the rules of their kind; (c) headers with a 1/2/3/4-byte character at every offset around byte 1024; (d) all lists of <= k lines over 13 good + 13 junk lines (and hosts files over 6 + 7), LF and CRLF, optimised or not: engine(list) and engine(list minus rejected lines) serialise to the same bytes and answer the battery identically; (e) every spelling of every host entry vs `||host^`: same mask / hostname / pattern and same verdict on every request of the host universe; (f) all lists of <= k good rules under the three rule-type options; (g) all sequences of <= 3 of 10 (blocking line, format) items - same text in both formats, repeats - loaded one add call each into one FilterSet: blocked exactly if a single-line engine blocks. Non-trivial: (a,b) some parser accepts the text; (c) a title is extracted; (d) some line is rejected, some kept and the battery sees an effect; (e) the entry blocks at least one request; (f) the list has both network and cosmetic effects. states = engines built, transitions = queries executed",
         &[
             "css-validation is off (baseline configuration): selectors are not validated at parse time",
             "hosts entries that the hosts parser refuses (localhost, bare TLD, trailing dot, forbidden characters) or whose `||host^` is not a rule: Unspecified (executed, counted, not compared)",
